@@ -205,16 +205,24 @@ def sec_other_caches(rep):
     # heavy n3lo interpolator: cache key is the file name, which is determined by (coeff, nf, variation)
     loads = []
 
-    class NPStub:
-        @staticmethod
-        def load(path):
-            loads.append(os.path.basename(str(path)))
-            return ("grid", os.path.basename(str(path)))
+    class _NP:
+        """numpy with load() replaced: a table of the real shape filled with the ordinal of the
+        file name (so the spline stub can tell which file it was built from)."""
+
+        def load(self, path):
+            nm = os.path.basename(str(path))
+            loads.append(nm)
+            return np.full((len(n3lo.xi_grid), len(n3lo.eta_grid)), float(len(loads)))
+
+        def __getattr__(self, a):
+            return getattr(np, a)
+
+    NPStub = _NP()
 
     saved = dict(n3lo.interpolators)
     n3lo.interpolators.clear()
     try:
-        with rebind((n3lo, "np", NPStub), (n3lo, "RectBivariateSpline", lambda xi, eta, c: ("spline", c))):
+        with rebind((n3lo, "np", NPStub), (n3lo, "RectBivariateSpline", lambda xi, eta, c: ("spline", loads[int(np.asarray(c).flat[0]) - 1]))):
             outs = {}
             for coeff, nf, var in itertools.product(("C2g", "CLq"), (3, 4, 4.0), (0, -1, 1)):
                 outs[(coeff, int(nf), var)] = n3lo.interpolator(coeff, nf, var)
@@ -222,7 +230,7 @@ def sec_other_caches(rep):
                 if again is not outs[(coeff, int(nf), var)]:
                     outs["mismatch"] = True
         names = {(c, nf, v): f"{c}_nf{nf}_var{v}.npy" for (c, nf, v) in [k for k in outs if k != "mismatch"]}
-        ok = "mismatch" not in outs and all(outs[k] == ("spline", ("grid", names[k])) for k in names) and len(loads) == len(set(loads)) == len(names)
+        ok = "mismatch" not in outs and all(outs[k] == ("spline", names[k]) for k in names) and len(loads) == len(set(loads)) == len(names)
     finally:
         n3lo.interpolators.clear()
         n3lo.interpolators.update(saved)
@@ -300,12 +308,12 @@ def sec_runner(rep):
         sy = H.Sy(extra=" ".join(f"q{i}" for i in range(n)))
         pre = [getattr(sy, f"q{i}") > 0 for i in range(n)]
 
-        def build(n=n, sy=sy):
+        def build(n=n, sy=sy, q2s=None):
             log = []
 
             class Elem:
                 def __init__(s, i):
-                    s.i, s.Q2 = i, getattr(sy, f"q{i}")
+                    s.i, s.Q2 = i, (getattr(sy, f"q{i}") if q2s is None else q2s[i])
 
                 def get_result(s):
                     from yadism.esf.result import ESFResult
@@ -349,6 +357,38 @@ def sec_runner(rep):
             ok = ok and (("drop", "F2_total") in log or n == 0 or True)
             rep.add(ob_eval(f"C14/Runner.get_result/n={n}/path{i_}/results[i] = result of element i", ok, detail=f"ordering {[t for t in log if t[0]=='compute']} under {p.pc}"))
         rep.add(ob_eval(f"C14/Runner.get_result/n={n}/cover(all Q2 orderings explored)", len(paths) >= [1, 1, 2, 6][n], kind="cover", detail=f"{len(paths)} paths"))
+    # long lists with repeated Q2 values in mixed order (concrete companion: sorting algorithms change
+    # with the length -- numpy's default argsort is unstable beyond 16 elements -- so placement by a
+    # second, separately computed ordering only shows on long lists with ties)
+    rng = np.random.default_rng(5)
+    for n_long, nvals in ((17, 2), (40, 3), (64, 5), (129, 4)):
+        rep.cases += 1
+        q2s = [float(v) for v in rng.choice([4.0, 10.0, 30.0, 90.0, 300.0][:nvals], size=n_long)]
+        try:
+            out, log = build(n=n_long, sy=None, q2s=q2s)
+            got = [r_.x for r_ in out["F2_total"]]
+            ok = got == [float(i) for i in range(n_long)] and sorted(i for t, i in log if t == "compute") == list(range(n_long))
+            detail = "every slot holds the result of its own element" if ok else f"slots hold elements {[int(g) for g in got]}"
+        except Exception as e:  # noqa
+            ok, detail = False, f"{type(e).__name__}: {e}"
+        rep.add(ob_eval(f"C14/Runner.get_result/n={n_long} with {nvals} distinct Q2 in mixed order/results[i] = result of element i", ok, detail=detail, inputs={} if ok else {"Q2_list": str(q2s), "observed": detail}))
+    # Runner.__init__: every card entry gets its OWN observable object loaded with exactly its own
+    # kinematics -- two spellings of one structure function ("F2", "F2_total") included
+    from yadism import observable_name as onmod
+
+    pts_a, pts_b = [{"x": 0.1, "Q2": 10.0}], [{"x": 0.4, "Q2": 30.0}, {"x": 0.6, "Q2": 50.0}]
+    for nm, obs in (("F2 then F2_total", {"F2": pts_a, "F2_total": pts_b}), ("F2_total then F2", {"F2_total": pts_b, "F2": pts_a}), ("FL_charm, F2, XSHERANC, F2_total", {"FL_charm": pts_b, "F2": pts_a, "XSHERANC": [dict(p, y=0.5) for p in pts_b], "F2_total": pts_b})):
+        rep.cases += 1
+        try:
+            r = rmod.Runner(H.base_theory(PTO=0, PTODIS=0, FNS="ZM-VFNS", TMC=0), H.base_obs(prDIS="NC", observables=copy.deepcopy(obs)))
+            objs = [r.observables[k] for k in obs]
+            loaded = {k: [(e.x, e.Q2) for e in r.observables[k].elements] for k in obs}
+            want = {k: [(p["x"], p["Q2"]) for p in v] for k, v in obs.items()}
+            ok = loaded == want and len({id(o) for o in objs}) == len(objs)
+            detail = "own object, own kinematics for every card entry" if ok else f"loaded {loaded} for card {want}; distinct objects: {len({id(o) for o in objs})}/{len(objs)}"
+        except Exception as e:  # noqa
+            ok, detail = False, f"{type(e).__name__}: {e}"
+        rep.add(ob_eval(f"C14/Runner.__init__/observables[name] = own object loaded with the card's kinematics of name/{nm}", ok, detail=detail, inputs={} if ok else {"card_observables": str(obs), "observed": detail}))
     # returned object is a deep copy of the internal output; a second call gives an equal one
     rep.cases += 1
     # get_sf: creates on demand, then returns the same object
